@@ -6,6 +6,10 @@ HERE = os.path.dirname(os.path.dirname(os.path.abspath(__file__)))
 TRUST = "Trusted: go/types and go/ssa (x/tools v0.29.0) represent the program faithfully; documented pre/post-conditions of reflect, strings, strconv, regexp, sync, container/list. The check analyses /repo's current source on every run and executes nothing from it; unresolved anchors, unrecognised shapes and analyser panics fail the check."
 
 CLAIMED = {
+ "C01": dict(
+   technique="path-sensitive abstract interpretation of the rule functions over a finite order-class/sign/kind domain, exhaustive, compared with a specification table (static analysis)",
+   text="Every size rule x reflect kind x order class of the measure against each bound x bound sign x custom-message presence is enumerated completely in a finite abstract domain (no concrete values): the verdict the code computes must equal the specification table, the measure must be the documented one, and bound conversions must preserve order. Exact boundaries, signedness hazards and missing kinds are decided for all values, not sampled. It decides the rule functions; which kinds the entry points pass through is C18/C03.",
+   ref="DESIGN.md §4 C01"),
  "C10": dict(
    technique="lockset dataflow on SSA over every path of every method of the mutex-bearing cache type (static analysis)",
    text="Static lock-discipline proof over all paths: every access to guarded cache state is under the mutex (write mode when mutating), each operation is a single critical section released on every exit, the private helper is only entered with the write lock, no re-entry, no escape of internals, no outside access. Decides race freedom, self-deadlock freedom and per-operation atomicity for all schedules; sequential meaning of the operations is C09's clause, not this one.",
